@@ -760,3 +760,791 @@ Example ex_burst_fixed :
   let s := fold_left (step_st c) evs (init c) in
   adms (lm s) = [100; 100; 0; 0] /\ wins (lm s) = [(100, [100; 100]); (0, [0; 0])].
 Proof. vm_compute. split; reflexivity. Qed.
+
+(* ========================================================================= *)
+(* improvement round: poll decomposition, ghost link, partition over adms, deadline, waker, later window,
+   capacity, spread idle arrivals *)
+(* ------------------------------------------------------------------------- *)
+(* what one poll does, in terms of the limiter's answer *)
+Lemma poll_frame c s i j :
+  j <> i -> cs (fst (poll c s i)) j = cs s j /\ woken (fst (poll c s i)) j = woken s j.
+Proof.
+  intros Hne. unfold poll. set (s1 := mkSt _ _ _ _ _ _ _ _).
+  assert (H1 : cs s1 j = cs s j /\ woken s1 j = woken s j).
+  { subst s1. cbn. rewrite upd_other by exact Hne. split; reflexivity. }
+  assert (Hr : forall b, cs (fst (poll_running s1 i b)) j = cs s j /\ woken (fst (poll_running s1 i b)) j = woken s j).
+  { intros b. unfold poll_running. case_gate; cbn [fst cs woken]; [|exact H1].
+    rewrite upd_other by exact Hne. exact H1. }
+  assert (Ha : forall start, cs (fst (acquire_round c s1 i start)) j = cs s j /\
+                             woken (fst (acquire_round c s1 i start)) j = woken s j).
+  { intros start. unfold acquire_round. destruct (try_acquire c (now s1) (lm s1)) as [l' a].
+    destruct a as [[w|]|].
+    - case_if; cbn [fst cs woken]; rewrite upd_other by exact Hne; exact H1.
+    - unfold poll_running. cbn [gate]. case_gate; cbn [fst cs woken]; rewrite ?upd_other by exact Hne; exact H1.
+    - cbn [fst cs woken]. rewrite upd_other by exact Hne. exact H1. }
+  change (cs s1 i) with (cs s i). destruct (cs s i).
+  - apply Ha.
+  - case_if; [apply Ha|exact H1].
+  - apply Hr.
+  - exact H1.
+  - exact H1.
+Qed.
+
+Lemma poll_now c s i : now (fst (poll c s i)) = now s.
+Proof.
+  unfold poll. set (s1 := mkSt _ _ _ _ _ _ _ _).
+  assert (Hr : forall b, now (fst (poll_running s1 i b)) = now s).
+  { intros b. unfold poll_running. case_gate; reflexivity. }
+  assert (Ha : forall start, now (fst (acquire_round c s1 i start)) = now s).
+  { intros start. unfold acquire_round. destruct (try_acquire c (now s1) (lm s1)) as [l' a].
+    destruct a as [[w|]|]; [case_if; reflexivity| |reflexivity].
+    unfold poll_running. cbn [gate]. case_gate; reflexivity. }
+  change (cs s1 i) with (cs s i). destruct (cs s i); try reflexivity; try apply Ha; try apply Hr.
+  case_if; [apply Ha|reflexivity].
+Qed.
+
+(* the caller is asked to try: it is new, or its sleep is over *)
+Definition tries_now (s : st) (i : nat) (start : Z) : Prop :=
+  (cs s i = Created /\ start = now s) \/ (exists u, cs s i = Sleeping start u /\ due u (now s) = true).
+
+Definition round_result (c : cfg) (s : st) (i : nat) (start : Z) (s' : st) (o : obs) : Prop :=
+  lm s' = fst (try_acquire c (now s) (lm s)) /\
+  match snd (try_acquire c (now s) (lm s)) with
+  | AOk None => started o = true /\ (cs s' i = Running \/ cs s' i = Done) /\ entered s' i = entered s i + 1 /\ r o <> 3
+  | AOk (Some w) =>
+      started o = false /\ entered s' i = entered s i /\
+      ((cs s' i = Done /\ r o = 3) \/ (cs s' i = Sleeping start (fst w + now s * snd w, snd w) /\ r o = 0))
+  | AErr => started o = false /\ cs s' i = Done /\ entered s' i = entered s i /\ r o = 3
+  end.
+
+Lemma poll_cases c s i :
+  (exists start, tries_now s i start /\ round_result c s i start (fst (poll c s i)) (snd (poll c s i))) \/
+  ((forall start, ~ tries_now s i start) /\ lm (fst (poll c s i)) = lm s /\ started (snd (poll c s i)) = false /\
+   entered (fst (poll c s i)) = entered s /\ r (snd (poll c s i)) <> 3 /\
+   (cs (fst (poll c s i)) i = cs s i \/ (cs s i = Running /\ cs (fst (poll c s i)) i = Done))).
+Proof.
+  unfold poll. set (s1 := mkSt _ _ _ _ _ _ _ _).
+  assert (Ha : forall start, round_result c s i start (fst (acquire_round c s1 i start)) (snd (acquire_round c s1 i start))).
+  { intros start. unfold round_result, acquire_round. change (now s1) with (now s). change (lm s1) with (lm s).
+    destruct (try_acquire c (now s) (lm s)) as [l' a]. cbn [fst snd]. destruct a as [[w|]|].
+    - case_if; cbn [fst snd lm cs entered started r]; rewrite upd_same; (split; [reflexivity|]);
+        (split; [reflexivity|]); (split; [reflexivity|]); [left|right]; split; reflexivity.
+    - unfold poll_running. cbn [gate]. case_gate; cbn [fst snd lm cs entered started r]; rewrite ?upd_same;
+        (split; [reflexivity|]); (split; [reflexivity|]).
+      + split; [right; reflexivity|]. split; [reflexivity|]. destruct o; discriminate.
+      + split; [left; reflexivity|]. split; [reflexivity|discriminate].
+    - cbn [fst snd lm cs entered started r]. rewrite upd_same. repeat split; reflexivity. }
+  change (cs s1 i) with (cs s i). destruct (cs s i) as [|start u| | |] eqn:Ecs.
+  - left. exists (now s). split; [left; split; [exact Ecs|reflexivity]|]. change (now s1) with (now s). apply Ha.
+  - change (now s1) with (now s). destruct (due u (now s)) eqn:Ed.
+    + left. exists start. split; [right; exists u; split; [exact Ecs|exact Ed]|apply Ha].
+    + right. cbn [fst snd]. split; [|repeat split; try reflexivity; try discriminate; left; subst s1; cbn; exact Ecs].
+      intros st0 [[H _]|(u0 & H & Hd)]; [congruence|]. rewrite Ecs in H. inversion H; subst. congruence.
+  - right. split; [intros st0 [[H _]|(u0 & H & _)]; congruence|].
+    unfold poll_running. case_gate; cbn [fst snd lm cs entered started r].
+    + rewrite upd_same. repeat split; try reflexivity; [destruct o; discriminate|right; split; reflexivity].
+    + repeat split; try reflexivity; [discriminate|left; subst s1; cbn; exact Ecs].
+  - right. split; [intros st0 [[H _]|(u0 & H & _)]; congruence|].
+    cbn [fst snd]. repeat split; try reflexivity; [discriminate|left; subst s1; cbn; exact Ecs].
+  - right. split; [intros st0 [[H _]|(u0 & H & _)]; congruence|].
+    cbn [fst snd]. repeat split; try reflexivity; [discriminate|left; subst s1; cbn; exact Ecs].
+Qed.
+
+(* the limiter only changes through try_acquire at the current instant *)
+Lemma step_lm c s e :
+  lm (step_st c s e) = lm s \/ lm (step_st c s e) = fst (try_acquire c (now s) (lm s)).
+Proof.
+  unfold step_st, step. destruct e as [i|i|d|i o]; cbn [fst].
+  - destruct (poll_cases c s i) as [(start & _ & H & _)|(_ & H & _)]; [right|left]; exact H.
+  - left. apply drop_consumes_nothing.
+  - left. reflexivity.
+  - left. unfold complete. destruct (gate s i); reflexivity.
+Qed.
+
+Lemma reach_lim (Q : lim -> Prop) c evs :
+  Q (new_lim c) -> (forall t l, Q l -> Q (fst (try_acquire c t l))) ->
+  Forall (fun s => Q (lm s)) (states (step_st c) (init c) evs).
+Proof.
+  intros H0 Hs. apply (reach_inv (step_st c) (fun s => Q (lm s))); [exact H0|].
+  intros s e H. destruct (step_lm c s e) as [-> | ->]; [exact H|apply Hs; exact H].
+Qed.
+
+(* ------------------------------------------------------------------------- *)
+(* C02: the ghost windows hold exactly the admissions (fixed window, sliding counter), the oldest
+   window starts when the limiter was created *)
+Definition linked (l : lim) : Prop :=
+  (exists rest a, wins l = rest ++ [(0, a)]) /\ adms l = concat (map snd (wins l)).
+
+Lemma based_bump t w : (exists rest a, w = rest ++ [(0, a)]) -> exists rest a, bump_head t w = rest ++ [(0, a)].
+Proof.
+  intros (rest & a & ->). destruct rest as [|[s x] r]; cbn.
+  - exists [], (t :: a). reflexivity.
+  - exists ((s, t :: x) :: r), a. reflexivity.
+Qed.
+
+Lemma linked_bump t (w : list (Z * list Z)) (a : list Z) :
+  (exists rest a0, w = rest ++ [(0, a0)]) -> a = concat (map snd w) ->
+  (exists rest a0, bump_head t w = rest ++ [(0, a0)]) /\ t :: a = concat (map snd (bump_head t w)).
+Proof.
+  intros Hb ->. split; [apply based_bump; exact Hb|].
+  destruct Hb as (rest & a0 & ->). destruct rest as [|[s x] r]; reflexivity.
+Qed.
+
+Lemma linked_cons t l : linked l ->
+  (exists rest a, (t, @nil Z) :: wins l = rest ++ [(0, a)]) /\ adms l = concat (map snd ((t, []) :: wins l)).
+Proof.
+  intros [(rest & a & Hw) Ha]. split; [|cbn; exact Ha]. exists ((t, []) :: rest), a. rewrite Hw. reflexivity.
+Qed.
+
+Lemma linked_fixed c t l : linked l -> linked (fst (fixed_try c t l)).
+Proof.
+  intros Hl. unfold fixed_try.
+  set (l1 := if period c <=? t - period_start l then _ else l).
+  assert (H1 : linked l1).
+  { subst l1. destruct (period c <=? t - period_start l); [|exact Hl]. apply (linked_cons t l Hl). }
+  destruct H1 as [Hn1 Ha1].
+  destruct (0 <? permits l1).
+  - cbn [fst]. unfold linked. cbn [wins adms]. apply (linked_bump t); assumption.
+  - destruct (timeout c <? _); cbn [fst]; split; assumption.
+Qed.
+
+Lemma linked_counter c t l : linked l -> linked (fst (counter_try c t l)).
+Proof.
+  intros Hl. unfold counter_try.
+  set (l1 := rotate c t l).
+  assert (H1 : linked l1).
+  { subst l1. unfold rotate. destruct (period c <=? t - bucket_start l); [|exact Hl].
+    destruct (2 * period c <=? t - bucket_start l); apply (linked_cons t l Hl). }
+  destruct H1 as [Hn1 Ha1].
+  match goal with |- context [if ?b then _ else _] => destruct b end.
+  - cbn [fst]. unfold linked. cbn [wins adms]. apply (linked_bump t); assumption.
+  - destruct (wait_gt _ _); cbn [fst]; split; assumption.
+Qed.
+
+Lemma every_admission_in_a_window c evs :
+  wt c <> SlidingLog ->
+  Forall (fun s => linked (lm s)) (states (step_st c) (init c) evs).
+Proof.
+  intros Hw. apply (reach_lim linked).
+  - split; [exists [], []; reflexivity|reflexivity].
+  - intros t l H. unfold try_acquire. destruct (wt c); [apply linked_fixed; exact H|congruence|apply linked_counter; exact H].
+Qed.
+
+(* ---- the partition, stated over the admission history ---- *)
+(* number of admissions in [lo, hi), hi = None meaning "no upper end" *)
+Definition in_win (lo : Z) (hi : option Z) (x : Z) : bool :=
+  (lo <=? x) && match hi with Some h => x <? h | None => true end.
+Definition count_in (lo : Z) (hi : option Z) (a : list Z) : Z := Z.of_nat (length (filter (in_win lo hi) a)).
+
+(* cuts, newest first, the newest window ending at hi: consecutive cuts are at least a period apart and
+   every window [cut, next cut) holds at most limit of the admissions a *)
+Fixpoint cuts_ok (c : cfg) (hi : option Z) (cuts : list Z) (a : list Z) : Prop :=
+  match cuts with
+  | [] => True
+  | s :: rest => match hi with Some h => s + period c <= h | None => True end /\
+                 count_in s hi a <= limit c /\ cuts_ok c (Some s) rest a
+  end.
+
+Lemma count_in_app lo hi x y : count_in lo hi (x ++ y) = count_in lo hi x + count_in lo hi y.
+Proof. unfold count_in. rewrite filter_app, app_length, Nat2Z.inj_add. reflexivity. Qed.
+
+Lemma count_in_zero lo hi x : Forall (fun v => in_win lo hi v = false) x -> count_in lo hi x = 0.
+Proof.
+  unfold count_in. induction x as [|v r IH]; intros H; [reflexivity|]. inversion H; subst. cbn.
+  rewrite H2. apply IH. assumption.
+Qed.
+
+Lemma count_in_le lo hi x : count_in lo hi x <= Z.of_nat (length x).
+Proof.
+  unfold count_in. induction x as [|v r IH]; cbn [filter length]; [lia|].
+  destruct (in_win lo hi v); cbn [length]; lia.
+Qed.
+
+Lemma spaced_below P s a rest :
+  0 <= P -> spaced P ((s, a) :: rest) -> Forall (fun w => fst w + P <= s) rest.
+Proof.
+  intros HP. revert s a. induction rest as [|[s2 a2] r IH]; intros s a H; [constructor|].
+  cbn in H. destruct H as [H1 H2]. constructor; [cbn; lia|].
+  eapply Forall_impl; [|apply (IH s2 a2 H2)]. intros w Hw. cbn in *. lia.
+Qed.
+
+Lemma spaced_tail P x rest : spaced P (x :: rest) -> spaced P rest.
+Proof. destruct x as [s a]. destruct rest as [|[s2 a2] r]; cbn; [trivial|]. intros [_ H]. exact H. Qed.
+
+Lemma older_below c s rest :
+  Forall (fun w => fst w + period c <= s) rest -> Forall (window_ok c) rest ->
+  Forall (fun x => x < s) (concat (map snd rest)).
+Proof.
+  induction rest as [|[s2 a2] r IH]; intros H1 H2; cbn; [constructor|].
+  inversion H1; subst. inversion H2; subst. apply Forall_app. split; [|apply IH; assumption].
+  destruct H5 as [_ Hf]. cbn in *. eapply Forall_impl; [|exact Hf]. intros x Hx. cbn in *. lia.
+Qed.
+
+Lemma cuts_ok_gen c : 0 < period c ->
+  forall w newer hi,
+    spaced (period c) w -> Forall (window_ok c) w ->
+    match hi with
+    | Some h => Forall (fun x => h <= x) newer /\ match w with (s, _) :: _ => s + period c <= h | [] => True end
+    | None => newer = []
+    end ->
+    cuts_ok c hi (map fst w) (newer ++ concat (map snd w)).
+Proof.
+  intros HP w. induction w as [|[s ak] rest IH]; intros newer hi Hsp Hw Hhi; [exact I|].
+  inversion Hw as [|? ? [Hlen Hin] Hwr]; subst. cbn [map fst snd concat cuts_ok].
+  pose proof (spaced_below _ _ _ _ (Z.lt_le_incl _ _ HP) Hsp) as Hbelow.
+  pose proof (older_below c s rest Hbelow Hwr) as Hold.
+  split; [destruct hi as [h|]; [apply Hhi|exact I]|]. split.
+  - rewrite !count_in_app.
+    assert (count_in s hi newer = 0) as ->.
+    { destruct hi as [h|]; [|rewrite Hhi; reflexivity]. destruct Hhi as [Hn _]. apply count_in_zero.
+      eapply Forall_impl; [|exact Hn]. intros x Hx. unfold in_win. cbn in Hx.
+      assert (x <? h = false) as -> by (apply Z.ltb_ge; lia). apply andb_false_r. }
+    assert (count_in s hi (concat (map snd rest)) = 0) as ->.
+    { apply count_in_zero. eapply Forall_impl; [|exact Hold]. intros x Hx. unfold in_win. cbn in Hx.
+      assert (s <=? x = false) as -> by (apply Z.leb_gt; lia). reflexivity. }
+    pose proof (count_in_le s hi ak). cbn in Hlen. lia.
+  - rewrite app_assoc. apply IH; [eapply spaced_tail; exact Hsp|exact Hwr|]. split.
+    + apply Forall_app. split.
+      * destruct hi as [h|]; [|rewrite Hhi; constructor]. destruct Hhi as [Hn Hs].
+        eapply Forall_impl; [|exact Hn]. intros x Hx. cbn in *. lia.
+      * cbn in Hin. eapply Forall_impl; [|exact Hin]. intros x Hx. cbn in *. lia.
+    + destruct rest as [|[s2 a2] r]; [exact I|]. inversion Hbelow; subst. cbn in *. lia.
+Qed.
+
+(* C02, as the property states it: in every reachable state the instants at which the limiter opened its
+   windows (newest first, the oldest being the limiter's creation at 0) cut time from 0 on into consecutive
+   windows, none shorter than the period, each holding at most limit of ALL admissions so far; every
+   admission is at or after 0, hence inside exactly one window *)
+Definition cuttable (c : cfg) (l : lim) : Prop :=
+  let cuts := map fst (wins l) in
+  last cuts 1 = 0 /\ Forall (fun x => 0 <= x) (adms l) /\ cuts_ok c None cuts (adms l).
+
+Lemma last_map_app (rest : list (Z * list Z)) a : last (map fst (rest ++ [(0, a)])) 1 = 0.
+Proof. rewrite map_app. cbn. apply last_last. Qed.
+
+Lemma starts_nonneg P w a0 rest :
+  0 <= P -> w = rest ++ [(0, a0)] -> spaced P w -> Forall (fun x => 0 <= fst x) w.
+Proof.
+  intros HP. revert w. induction rest as [|[s a] r IH]; intros w -> Hsp; cbn.
+  - constructor; [cbn; lia|constructor].
+  - assert (Hr : Forall (fun x => 0 <= fst x) (r ++ [(0, a0)])) by (apply IH; [reflexivity|eapply spaced_tail; exact Hsp]).
+    constructor; [|exact Hr]. cbn.
+    cbn in Hsp. destruct (r ++ [(0, a0)]) as [|[s2 a2] r2] eqn:E; [destruct r; discriminate|].
+    destruct Hsp as [H1 _]. inversion Hr; subst. cbn in *. lia.
+Qed.
+
+Lemma cuttable_of c l : wfc c -> linked l -> windows_ok c l -> cuttable c l.
+Proof.
+  intros (Hl & HP & HT) [(rest & a0 & Hw) Ha] [Hsp Hok]. unfold cuttable. cbn zeta. split; [|split].
+  - rewrite Hw. apply last_map_app.
+  - rewrite Ha. pose proof (starts_nonneg _ _ _ _ (Z.lt_le_incl _ _ HP) Hw Hsp) as Hnn.
+    clear Hw Ha Hsp. induction (wins l) as [|[s a] r IH]; cbn; [constructor|].
+    inversion Hnn; subst. inversion Hok as [|? ? [_ Hin] Hr]; subst. apply Forall_app. split; [|apply IH; assumption].
+    cbn in *. eapply Forall_impl; [|exact Hin]. intros x Hx. cbn in *. lia.
+  - rewrite Ha. apply (cuts_ok_gen c HP (wins l) [] None Hsp Hok eq_refl).
+Qed.
+
+Lemma windows_reach c evs :
+  wfc c -> wt c <> SlidingLog ->
+  Forall (fun s => windows_ok c (lm s)) (states (step_st c) (init c) evs).
+Proof.
+  intros Hwf Hw. destruct (wt c) eqn:E; [apply fixed_windows; assumption|congruence|apply counter_windows; assumption].
+Qed.
+
+Lemma cuttable_reach c evs :
+  wfc c -> wt c <> SlidingLog ->
+  Forall (fun s => cuttable c (lm s)) (states (step_st c) (init c) evs).
+Proof.
+  intros Hwf Hw. pose proof (every_admission_in_a_window c evs Hw) as H1.
+  pose proof (windows_reach c evs Hwf Hw) as H2.
+  rewrite Forall_forall in *. intros s Hs. apply cuttable_of; [exact Hwf|apply H1; exact Hs|apply H2; exact Hs].
+Qed.
+
+(* ------------------------------------------------------------------------- *)
+(* C15 clause a: decided by arrival + timeout *)
+(* a sleeping caller polled at/after arrival + timeout is decided in that poll *)
+Lemma decided_by_deadline c s i start u :
+  wfc c -> Inv c s -> cs s i = Sleeping start u -> start + timeout c <= now s ->
+  forall st' u', cs (fst (poll c s i)) i <> Sleeping st' u'.
+Proof.
+  intros Hwf Hinv Hcs Hlate st' u'.
+  pose proof Hinv as [Hl Hn Hs He He0].
+  destruct (Hs i start u Hcs) as (Hden & Hb & Hle & Harr).
+  unfold poll. set (s1 := mkSt _ _ _ _ _ _ _ _).
+  change (cs s1 i) with (cs s i). rewrite Hcs. change (now s1) with (now s).
+  assert (Hdue : due u (now s) = true).
+  { unfold due. apply Z.leb_le. nia. }
+  rewrite Hdue. unfold acquire_round. change (now s1) with (now s). change (lm s1) with (lm s).
+  pose proof (try_acquire_wait_pos c (now s) (lm s)) as Hpos.
+  pose proof (try_acquire_wait_den c (now s) (lm s)) as Hd.
+  destruct (try_acquire c (now s) (lm s)) as [l' a]. cbn [snd] in *.
+  destruct a as [[w|]|].
+  - specialize (Hpos w Hwf Hl eq_refl). specialize (Hd w Hwf Hl eq_refl).
+    assert (Hg : wait_gt (fst w + (now s - start) * snd w, snd w) (timeout c) = true).
+    { unfold wait_gt. cbn [fst snd]. apply Z.ltb_lt. nia. }
+    rewrite Hg. cbn. unfold upd. rewrite Nat.eqb_refl. discriminate.
+  - unfold poll_running. cbn. destruct (gate s i); cbn; unfold upd; rewrite Nat.eqb_refl; discriminate.
+  - cbn. unfold upd. rewrite Nat.eqb_refl. discriminate.
+Qed.
+
+(* ... and the caller is told: whenever a sleeping caller's deadline has passed, its waker has fired
+   (the timer fires at the first whole millisecond at/after the deadline), in every reachable state *)
+Lemma due_mono u t t' : 0 < snd u -> t <= t' -> due u t = true -> due u t' = true.
+Proof. unfold due. intros Hd Hle H. apply Z.leb_le in H. apply Z.leb_le. nia. Qed.
+
+Definition woken_inv (s : st) : Prop :=
+  forall i start u, cs s i = Sleeping start u -> due u (now s) = true -> woken s i = true.
+
+Lemma woken_step c s e : wfc c -> Inv c s -> woken_inv s -> woken_inv (step_st c s e).
+Proof.
+  intros Hwf Hinv Hw. unfold step_st, step. destruct e as [i|i|d|i o]; cbn [fst].
+  - intros j start u Hcs Hdue. rewrite poll_now in Hdue. destruct (Nat.eq_dec j i) as [->|Hne].
+    + exfalso. destruct (poll_cases c s i) as [(st0 & Ht & Hlm & Hres)|(Hno & _ & _ & _ & _ & Hc)].
+      * (* a round was played: a new sleep ends strictly later than now *)
+        destruct Hinv as [Hl _ _ _ _].
+        pose proof (try_acquire_wait_pos c (now s) (lm s)) as Hpos.
+        destruct (snd (try_acquire c (now s) (lm s))) as [[w|]|].
+        -- specialize (Hpos w Hwf Hl eq_refl).
+           destruct Hres as (_ & _ & [[H _]|[H _]]); rewrite H in Hcs; [discriminate|].
+           inversion Hcs; subst. unfold due in Hdue. cbn [fst snd] in Hdue. apply Z.leb_le in Hdue. lia.
+        -- destruct Hres as (_ & [H|H] & _); rewrite H in Hcs; discriminate.
+        -- destruct Hres as (_ & H & _); rewrite H in Hcs; discriminate.
+      * destruct Hc as [Hc|[Hc1 Hc2]]; [|congruence]. rewrite Hc in Hcs.
+        apply (Hno start). right. exists u. split; assumption.
+    + destruct (poll_frame c s i j Hne) as [H1 H2]. rewrite H1 in Hcs. rewrite H2. eapply Hw; eassumption.
+  - intros j start u Hcs Hdue. unfold drop in *. destruct (Nat.eq_dec j i) as [->|Hne].
+    + destruct (cs s i) eqn:Ei; cbn [cs] in Hcs; rewrite ?upd_same in Hcs; try discriminate; congruence.
+    + destruct (cs s i) eqn:Ei; cbn [cs woken now] in *; rewrite ?upd_other in * by exact Hne; eapply Hw; eassumption.
+  - intros j start u Hcs Hdue. cbn [cs woken now advance] in *. unfold advance in *. cbn [cs woken now] in *.
+    destruct (woken s j) eqn:Ewk; [reflexivity|]. cbn [orb]. unfold timer_fires. rewrite Hcs.
+    rewrite Hdue. rewrite andb_true_r. destruct (due u (now s)) eqn:Ed; [|reflexivity].
+    rewrite (Hw j start u Hcs Ed) in Ewk. discriminate.
+  - intros j start u Hcs Hdue. unfold complete in *. destruct (gate s i); [eapply Hw; eassumption|].
+    cbn [cs woken now] in *. destruct (cs s i) eqn:Ei; try (eapply Hw; eassumption).
+    destruct (Nat.eq_dec j i) as [->|Hne]; [rewrite upd_same; reflexivity|].
+    rewrite upd_other by exact Hne. eapply Hw; eassumption.
+Qed.
+
+Lemma woken_when_due c evs :
+  wfc c -> Forall woken_inv (states (step_st c) (init c) evs).
+Proof.
+  intros Hwf.
+  assert (H : Forall (fun s => Inv c s /\ woken_inv s) (states (step_st c) (init c) evs)).
+  { apply reach_inv.
+    - split; [apply inv_init; exact Hwf|]. intros i start u H. cbn in H. discriminate.
+    - intros s e [H1 H2]. split; [apply step_inv; assumption|apply woken_step; assumption]. }
+  eapply Forall_impl; [|exact H]. intros s [_ H2]. exact H2.
+Qed.
+
+(* ------------------------------------------------------------------------- *)
+(* C15 clause c, fixed window: a caller admitted after waiting takes a permit of a window that
+   started after it arrived *)
+Lemma fixed_try_facts c t l :
+  wfc c -> wt c = Fixed -> FInv c t l ->
+  let l' := fst (fixed_try c t l) in
+  period_start l <= period_start l' /\
+  (period_start l' <> period_start l -> period_start l' = t /\ period_start l + period c <= t) /\
+  (period_start l' = period_start l -> permits l = 0 -> permits l' = 0 /\ snd (fixed_try c t l) <> AOk None) /\
+  (forall w, snd (fixed_try c t l) = AOk (Some w) ->
+             permits l' = 0 /\ period_start l' <= t < period_start l' + period c).
+Proof.
+  intros (Hl & HP & HT) Hw [Hh Hp Hs _]. unfold fixed_try.
+  destruct (period c <=? t - period_start l) eqn:E.
+  - apply Z.leb_le in E. cbn [permits period_start].
+    assert (0 <? limit c = true) as -> by (apply Z.ltb_lt; lia). cbn [fst snd permits period_start].
+    repeat split; intros; try lia; try discriminate.
+  - apply Z.leb_gt in E. destruct (0 <? permits l) eqn:Ep.
+    + apply Z.ltb_lt in Ep. cbn [fst snd permits period_start]. repeat split; intros; try lia; try discriminate.
+    + apply Z.ltb_ge in Ep. destruct (timeout c <? _); cbn [fst snd]; repeat split; intros; try lia; try discriminate; try congruence.
+Qed.
+
+Definition later_inv (c : cfg) (s : st) : Prop :=
+  forall i start u, cs s i = Sleeping start u ->
+    (permits (lm s) = 0 /\ period_start (lm s) <= start < period_start (lm s) + period c) \/
+    start < period_start (lm s).
+
+(* effect of one try_acquire at [now s] on everybody's later_inv clause *)
+Lemma later_try c s start :
+  wfc c -> wt c = Fixed -> Inv c s ->
+  let l' := fst (try_acquire c (now s) (lm s)) in
+  ((permits (lm s) = 0 /\ period_start (lm s) <= start < period_start (lm s) + period c) \/
+   start < period_start (lm s)) ->
+  ((permits l' = 0 /\ period_start l' <= start < period_start l' + period c) \/ start < period_start l') /\
+  (snd (try_acquire c (now s) (lm s)) = AOk None -> start < period_start l').
+Proof.
+  intros Hwf Hw [Hl _ _ _ _] l' H. unfold LimInv in Hl. rewrite Hw in Hl.
+  pose proof (fixed_try_facts c (now s) (lm s) Hwf Hw Hl) as (F1 & F2 & F3 & F4).
+  subst l'. unfold try_acquire. rewrite Hw.
+  destruct (Z.eq_dec (period_start (fst (fixed_try c (now s) (lm s)))) (period_start (lm s))) as [Heq|Hne].
+  - destruct H as [[Hp Hr]|Hlt].
+    + destruct (F3 Heq Hp) as [Hp' Hno]. split; [left; rewrite Heq; split; assumption|]. intros Hk. congruence.
+    + split; [right; lia|intros _; lia].
+  - destruct (F2 Hne) as [Hn Hge]. destruct H as [[Hp Hr]|Hlt]; (split; [right; lia|intros _; lia]).
+Qed.
+
+Lemma later_step c s e : wfc c -> wt c = Fixed -> Inv c s -> later_inv c s -> later_inv c (step_st c s e).
+Proof.
+  intros Hwf Hw Hinv HL. unfold step_st, step. destruct e as [i|i|d|i o]; cbn [fst].
+  - intros j start u Hcs.
+    destruct (poll_cases c s i) as [(st0 & Ht & Hlm & Hres)|(Hno & Hlm & _ & _ & _ & Hc)].
+    + rewrite Hlm. destruct (Nat.eq_dec j i) as [->|Hne].
+      * (* the polled caller sleeps (again): it was refused at now *)
+        pose proof Hinv as [Hl _ Hsl _ _]. unfold LimInv in Hl. rewrite Hw in Hl.
+        pose proof (fixed_try_facts c (now s) (lm s) Hwf Hw Hl) as (F1 & F2 & F3 & F4).
+        unfold try_acquire in *. rewrite Hw in *.
+        destruct (snd (fixed_try c (now s) (lm s))) as [[w|]|] eqn:Ea.
+        -- destruct (F4 w eq_refl) as [G1 G2].
+           destruct Hres as (_ & _ & [[H _]|[H _]]); rewrite H in Hcs; [discriminate|]. inversion Hcs; subst st0 u. clear Hcs.
+           destruct Ht as [[Hc ->]|(u0 & Hc & Hd)].
+           ++ left. split; [exact G1|lia].
+           ++ destruct (Hsl i start u0 Hc) as (_ & _ & Hle & _).
+              destruct (later_try c s start Hwf Hw Hinv (HL i start u0 Hc)) as [Hk _].
+              unfold try_acquire in Hk. rewrite Hw in Hk. exact Hk.
+        -- destruct Hres as (_ & [H|H] & _); rewrite H in Hcs; discriminate.
+        -- destruct Hres as (_ & H & _); rewrite H in Hcs; discriminate.
+      * destruct (poll_frame c s i j Hne) as [H1 _]. rewrite H1 in Hcs.
+        apply (later_try c s start Hwf Hw Hinv (HL j start u Hcs)).
+    + rewrite Hlm. destruct (Nat.eq_dec j i) as [->|Hne].
+      * destruct Hc as [Hc|[Hc1 Hc2]]; [rewrite Hc in Hcs; eapply HL; exact Hcs|congruence].
+      * destruct (poll_frame c s i j Hne) as [H1 _]. rewrite H1 in Hcs. eapply HL; exact Hcs.
+  - intros j start u Hcs. rewrite drop_consumes_nothing. unfold drop in Hcs.
+    destruct (Nat.eq_dec j i) as [->|Hne].
+    + destruct (cs s i) eqn:Ei; cbn [cs] in Hcs; rewrite ?upd_same in Hcs; try discriminate; congruence.
+    + destruct (cs s i) eqn:Ei; cbn [cs] in Hcs; rewrite ?upd_other in Hcs by exact Hne; eapply HL; exact Hcs.
+  - intros j start u Hcs. cbn in *. eapply HL; exact Hcs.
+  - intros j start u Hcs. unfold complete in *. destruct (gate s i); [eapply HL; exact Hcs|]. cbn in *. eapply HL; exact Hcs.
+Qed.
+
+Lemma fixed_later_window c evs :
+  wfc c -> wt c = Fixed ->
+  Forall (fun s => forall i start u, cs s i = Sleeping start u ->
+            started (snd (poll c s i)) = true -> start < period_start (lm (fst (poll c s i))))
+         (states (step_st c) (init c) evs).
+Proof.
+  intros Hwf Hw.
+  assert (H : Forall (fun s => Inv c s /\ later_inv c s) (states (step_st c) (init c) evs)).
+  { apply reach_inv.
+    - split; [apply inv_init; exact Hwf|]. intros i start u H. cbn in H. discriminate.
+    - intros s e [H1 H2]. split; [apply step_inv; assumption|apply later_step; assumption]. }
+  eapply Forall_impl; [|exact H]. intros s [Hinv HL] i start u Hcs Hst.
+  destruct (poll_cases c s i) as [(st0 & Ht & Hlm & Hres)|(_ & _ & Hno & _)]; [|congruence].
+  rewrite Hlm. destruct Ht as [[Hc _]|(u0 & Hc & _)]; [congruence|]. rewrite Hcs in Hc. inversion Hc; subst st0 u0.
+  destruct (later_try c s start Hwf Hw Hinv (HL i start u Hcs)) as [_ Hk]. apply Hk.
+  destruct (snd (try_acquire c (now s) (lm s))) as [[w|]|]; [|reflexivity|]; destruct Hres as [Hs _]; congruence.
+Qed.
+
+(* ... and the same sentence read on the sliding counter's buckets is FALSE (of the model and, same script,
+   of the code): limit 1, period 16 ms, timeout 100 ms; caller 0 admitted at 0; caller 2 arrives at 16, when
+   the bucket (16, ..) starts with the previous bucket's admission still weighing 1.0, waits, and is admitted
+   at 18 in that same bucket *)
+Definition ex_counter_cfg := mkCfg SlidingCounter 1 16 100.
+Definition ex_counter_evs := [Poll 0%nat; Advance 16; Poll 1%nat; Drop 1%nat; Poll 2%nat; Advance 2].
+
+Lemma counter_later_window_refuted :
+  exists (c : cfg) (evs : list ev) (i : nat) (start : Z) (u : wait),
+    wfc c /\ wt c = SlidingCounter /\
+    let s := fold_left (step_st c) evs (init c) in
+    cs s i = Sleeping start u /\ started (snd (poll c s i)) = true /\
+    bucket_start (lm (fst (poll c s i))) <= start /\
+    wins (lm (fst (poll c s i))) = [(16, [18]); (0, [0])].
+Proof.
+  exists ex_counter_cfg, ex_counter_evs, 2%nat, 16, (176, 10).
+  split; [unfold wfc; cbn; lia|]. split; [reflexivity|]. vm_compute. repeat split; try reflexivity; intro; discriminate.
+Qed.
+
+(* ------------------------------------------------------------------------- *)
+(* C15 clause b for the sliding counter: spare capacity by the counter's own weighted estimate *)
+Lemma counter_spare c t l :
+  let l1 := rotate c t l in
+  let e := Z.min (Z.max 0 (t - bucket_start l1)) (period c) in
+  prevc l1 * (period c - e) + curc l1 * period c < limit c * period c ->
+  snd (counter_try c t l) = AOk None.
+Proof. intros l1 e H. unfold counter_try. fold l1. fold e. apply Z.ltb_lt in H. rewrite H. reflexivity. Qed.
+
+(* capacity that cannot be lost by the passage of time: m more calls are admitted at once, whenever they come *)
+Definition cap (c : cfg) (l : lim) (m : Z) : Prop :=
+  match wt c with
+  | Fixed => m <= permits l
+  | SlidingLog => Z.of_nat (length (rlog l)) + m <= limit c
+  | SlidingCounter => 0 <= prevc l /\ 0 <= curc l /\ prevc l + curc l + m <= limit c
+  end.
+
+Lemma cap_step c l m t :
+  wfc c -> 0 <= m -> m + 1 <= limit c -> cap c l (m + 1) ->
+  snd (try_acquire c t l) = AOk None /\ cap c (fst (try_acquire c t l)) m.
+Proof.
+  intros (Hl & HP & HT) Hm Hml. unfold cap, try_acquire. destruct (wt c).
+  - intros H. unfold fixed_try. destruct (period c <=? t - period_start l); cbn [permits].
+    + assert (0 <? limit c = true) as -> by (apply Z.ltb_lt; lia). cbn. split; [reflexivity|lia].
+    + assert (0 <? permits l = true) as -> by (apply Z.ltb_lt; lia). cbn. split; [reflexivity|lia].
+  - intros H. unfold log_try. pose proof (prune_length c t (rlog l)) as Hpl.
+    assert (Z.of_nat (length (prune c t (rlog l))) <? limit c = true) as -> by (apply Z.ltb_lt; lia).
+    cbn. split; [reflexivity|]. rewrite app_length. cbn. lia.
+  - intros (H1 & H2 & H3). unfold counter_try. set (l1 := rotate c t l).
+    assert (Hr : 0 <= prevc l1 /\ 0 <= curc l1 /\ prevc l1 + curc l1 <= prevc l + curc l).
+    { subst l1. unfold rotate. repeat case_if; cbn; lia. }
+    set (e := Z.min (Z.max 0 (t - bucket_start l1)) (period c)).
+    assert (He : 0 <= e <= period c) by (subst e; lia).
+    assert (prevc l1 * (period c - e) + curc l1 * period c <? limit c * period c = true) as ->.
+    { apply Z.ltb_lt. nia. }
+    cbn. split; [reflexivity|lia].
+Qed.
+
+(* two idle periods give full capacity, for all three window types *)
+Lemma idle_cap c t0 l t m :
+  wfc c -> LimInv c t0 l -> t0 + 2 * period c <= t -> 0 <= m -> m + 1 <= limit c ->
+  snd (try_acquire c t l) = AOk None /\ cap c (fst (try_acquire c t l)) m.
+Proof.
+  intros Hwf Hinv Hidle Hm Hml. pose proof Hwf as (Hl & HP & HT). unfold LimInv in Hinv.
+  unfold cap, try_acquire. destruct (wt c) eqn:Hw.
+  - destruct Hinv as [_ _ Hs _]. unfold fixed_try.
+    assert (period c <=? t - period_start l = true) as -> by (apply Z.leb_le; lia). cbn [permits].
+    assert (0 <? limit c = true) as -> by (apply Z.ltb_lt; lia). cbn. split; [reflexivity|lia].
+  - destruct Hinv as [[Hsplit _ Hle] _]. unfold log_try.
+    assert (Hp : prune c t (rlog l) = []).
+    { apply prune_all. destruct Hsplit as (older & Ha & _).
+      rewrite Forall_forall in *. intros x Hx. assert (x <= t0); [|lia]. apply Hle. rewrite Ha. apply in_or_app. left.
+      apply in_rev in Hx. exact Hx. }
+    rewrite Hp. cbn [length]. assert (Z.of_nat 0 <? limit c = true) as -> by (apply Z.ltb_lt; lia).
+    cbn. split; [reflexivity|lia].
+  - destruct Hinv as [_ _ Hs _]. unfold counter_try, rotate.
+    assert (period c <=? t - bucket_start l = true) as -> by (apply Z.leb_le; lia).
+    assert (2 * period c <=? t - bucket_start l = true) as -> by (apply Z.leb_le; lia). cbn.
+    match goal with |- context [if ?b then _ else _] => assert (b = true) as -> by (apply Z.ltb_lt; nia) end.
+    cbn. split; [reflexivity|lia].
+Qed.
+
+(* calls at arbitrary instants *)
+Fixpoint tries_at (c : cfg) (ts : list Z) (l : lim) : list acq :=
+  match ts with [] => [] | t :: r => let '(l', a) := try_acquire c t l in a :: tries_at c r l' end.
+
+Lemma cap_tries_at c ts : wfc c -> forall l,
+  Z.of_nat (length ts) <= limit c -> cap c l (Z.of_nat (length ts)) -> Forall (eq (AOk None)) (tries_at c ts l).
+Proof.
+  intros Hwf. induction ts as [|t r IH]; intros l Hn Hc; cbn [tries_at]; [constructor|].
+  cbn [length] in *. rewrite Nat2Z.inj_succ in *. replace (Z.succ (Z.of_nat (length r))) with (Z.of_nat (length r) + 1) in * by lia.
+  destruct (cap_step c l (Z.of_nat (length r)) t Hwf ltac:(lia) Hn Hc) as [Ha Hc'].
+  destruct (try_acquire c t l) as [l' a]. cbn [fst snd] in *. subst a. constructor; [reflexivity|].
+  apply IH; [lia|exact Hc'].
+Qed.
+
+(* after two idle periods the next limit calls are admitted without waiting, however they are spread in time *)
+Lemma idle_two_periods_spread c t0 l t1 rest :
+  wfc c -> LimInv c t0 l -> t0 + 2 * period c <= t1 -> Z.of_nat (S (length rest)) <= limit c ->
+  Forall (eq (AOk None)) (tries_at c (t1 :: rest) l).
+Proof.
+  intros Hwf Hinv Hidle Hn. cbn [tries_at]. rewrite Nat2Z.inj_succ in Hn.
+  destruct (idle_cap c t0 l t1 (Z.of_nat (length rest)) Hwf Hinv Hidle ltac:(lia) ltac:(lia)) as [Ha Hc].
+  destruct (try_acquire c t1 l) as [l' a]. cbn [fst snd] in *. subst a. constructor; [reflexivity|].
+  apply cap_tries_at; [exact Hwf|lia|exact Hc].
+Qed.
+
+(* the same at the level run_script executes: from ANY reachable state, after a clock advance of two periods
+   with nothing else happening, fresh callers polled at arbitrary later instants (gap g before each), up to
+   limit of them, each start their inner call in their first poll *)
+Fixpoint fresh_polls (c : cfg) (s : st) (gis : list (Z * nat)) : list bool :=
+  match gis with
+  | [] => []
+  | (g, i) :: r =>
+    let s1 := step_st c s (Advance g) in
+    started (snd (step c s1 (Poll i))) :: fresh_polls c (step_st c s1 (Poll i)) r
+  end.
+
+Lemma fresh_polls_cap c : wfc c -> forall gis s,
+  NoDup (map snd gis) -> Forall (fun gi => cs s (snd gi) = Created) gis ->
+  Z.of_nat (length gis) <= limit c -> cap c (lm s) (Z.of_nat (length gis)) ->
+  Forall (eq true) (fresh_polls c s gis).
+Proof.
+  intros Hwf. induction gis as [|[g i] r IH]; intros s Hnd Hcr Hn Hc; cbn [fresh_polls]; [constructor|].
+  cbn [length map snd] in *. rewrite Nat2Z.inj_succ in *.
+  replace (Z.succ (Z.of_nat (length r))) with (Z.of_nat (length r) + 1) in * by lia.
+  inversion Hnd as [|? ? Hni Hnd']; subst. inversion Hcr as [|? ? Hci Hcr']; subst. cbn [snd] in Hci.
+  set (s1 := step_st c s (Advance g)).
+  assert (Hl1 : lm s1 = lm s) by reflexivity.
+  assert (Hc1 : forall j, cs s1 j = cs s j) by reflexivity.
+  destruct (cap_step c (lm s1) (Z.of_nat (length r)) (now s1) Hwf ltac:(lia) Hn ltac:(rewrite Hl1; exact Hc)) as [Ha Hc'].
+  change (step c s1 (Poll i)) with (poll c s1 i). change (step_st c s1 (Poll i)) with (fst (poll c s1 i)).
+  destruct (poll_cases c s1 i) as [(st0 & Ht & Hlm & Hres)|(Hno & _)].
+  - rewrite Ha in Hres. destruct Hres as (Hst & _). constructor; [symmetry; exact Hst|].
+    apply IH; [exact Hnd'| |lia|rewrite Hlm; exact Hc'].
+    rewrite Forall_forall in *. intros gi Hgi.
+    assert (Hne : snd gi <> i).
+    { intros Heq. apply Hni. rewrite <- Heq. apply in_map. exact Hgi. }
+    destruct (poll_frame c s1 i (snd gi) Hne) as [H1 _]. rewrite H1, Hc1. apply Hcr'. exact Hgi.
+  - exfalso. apply (Hno (now s1)). left. split; [rewrite Hc1; exact Hci|reflexivity].
+Qed.
+
+Lemma idle_then_fresh_callers c evs d g i rest :
+  wfc c -> 2 * period c <= d + g -> 0 <= d -> 0 <= g ->
+  let s := fold_left (step_st c) evs (init c) in
+  NoDup (i :: map snd rest) -> cs s i = Created -> Forall (fun gi => cs s (snd gi) = Created) rest ->
+  Z.of_nat (S (length rest)) <= limit c ->
+  Forall (eq true) (fresh_polls c (step_st c s (Advance d)) ((g, i) :: rest)).
+Proof.
+  intros Hwf Hd Hd0 Hg0 s Hnd Hci Hcr Hn. cbn [fresh_polls]. rewrite Nat2Z.inj_succ in Hn.
+  assert (Hinv : Inv c s).
+  { pose proof (reach_Inv c evs Hwf) as H. rewrite Forall_forall in H. apply H. apply states_last. }
+  set (s1 := step_st c (step_st c s (Advance d)) (Advance g)).
+  assert (Hl1 : lm s1 = lm s) by reflexivity.
+  assert (Hc1 : forall j, cs s1 j = cs s j) by reflexivity.
+  assert (Hn1 : now s1 = now s + Z.max 0 d + Z.max 0 g) by reflexivity.
+  destruct Hinv as [Hlim _ _ _ _].
+  destruct (idle_cap c (now s) (lm s1) (now s1) (Z.of_nat (length rest)) Hwf ltac:(rewrite Hl1; exact Hlim) ltac:(lia) ltac:(lia) ltac:(lia)) as [Ha Hc'].
+  inversion Hnd as [|? ? Hni Hnd']; subst.
+  change (step c s1 (Poll i)) with (poll c s1 i). change (step_st c s1 (Poll i)) with (fst (poll c s1 i)).
+  destruct (poll_cases c s1 i) as [(st0 & Ht & Hlm & Hres)|(Hno & _)].
+  - rewrite Ha in Hres. destruct Hres as (Hst & _). constructor; [symmetry; exact Hst|].
+    apply fresh_polls_cap; [exact Hwf|exact Hnd'| |lia|rewrite Hlm; exact Hc'].
+    rewrite Forall_forall in *. intros gi Hgi.
+    assert (Hne : snd gi <> i).
+    { intros Heq. apply Hni. rewrite <- Heq. apply in_map. exact Hgi. }
+    destruct (poll_frame c s1 i (snd gi) Hne) as [H1 _]. rewrite H1, Hc1. apply Hcr. exact Hgi.
+  - exfalso. apply (Hno (now s1)). left. split; [rewrite Hc1; exact Hci|reflexivity].
+Qed.
+
+(* ------------------------------------------------------------------------- *)
+(* admitted <-> reaches the inner service, once *)
+Lemma consumed_permit_starts c s i :
+  wfc c -> adms (lm (fst (poll c s i))) <> adms (lm s) ->
+  started (snd (poll c s i)) = true /\ entered (fst (poll c s i)) i = entered s i + 1.
+Proof.
+  intros Hwf Hne. destruct (poll_cases c s i) as [(st0 & _ & Hlm & Hres)|(_ & Hlm & _)]; [|rewrite Hlm in Hne; congruence].
+  rewrite Hlm in Hne. destruct (ok_zero_iff_consumed c (now s) (lm s) Hwf) as [_ Hno].
+  destruct (snd (try_acquire c (now s) (lm s))) as [[w|]|].
+  - exfalso. apply Hne. apply Hno. discriminate.
+  - destruct Hres as (H1 & _ & H2 & _). split; assumption.
+  - exfalso. apply Hne. apply Hno. discriminate.
+Qed.
+
+(* a decided call stays decided: polling it again does nothing at all *)
+Lemma decided_stays c s i :
+  cs s i = Done -> r (snd (poll c s i)) = 9 /\ started (snd (poll c s i)) = false /\
+  lm (fst (poll c s i)) = lm s /\ entered (fst (poll c s i)) = entered s /\ cs (fst (poll c s i)) i = Done.
+Proof. intros H. unfold poll. cbn [cs]. rewrite H. cbn. rewrite H. repeat split; reflexivity. Qed.
+
+(* a rejection changes no count of admissions: the ghost history is untouched *)
+Lemma rejected_admits_nothing c s i :
+  wfc c -> r (snd (poll c s i)) = 3 -> adms (lm (fst (poll c s i))) = adms (lm s).
+Proof.
+  intros Hwf Hr. destruct (poll_cases c s i) as [(st0 & _ & Hlm & Hres)|(_ & Hlm & _)]; [|rewrite Hlm; reflexivity].
+  rewrite Hlm. destruct (ok_zero_iff_consumed c (now s) (lm s) Hwf) as [_ Hno].
+  destruct (snd (try_acquire c (now s) (lm s))) as [[w|]|]; [apply Hno; discriminate| |apply Hno; discriminate].
+  destruct Hres as (_ & _ & _ & H). congruence.
+Qed.
+
+(* ------------------------------------------------------------------------- *)
+(* non-vacuity *)
+Example ex_counter_windows :
+  let c := mkCfg SlidingCounter 1 16 100 in
+  let s := fold_left (step_st c) (ex_counter_evs ++ [Poll 2%nat]) (init c) in
+  adms (lm s) = [18; 0] /\ wins (lm s) = [(16, [18]); (0, [0])] /\ cuttable c (lm s).
+Proof.
+  cbn zeta. split; [vm_compute; reflexivity|]. split; [vm_compute; reflexivity|].
+  unfold cuttable. cbn zeta. split; [vm_compute; reflexivity|]. split.
+  - vm_compute. repeat (constructor; [intro; discriminate|]). constructor.
+  - vm_compute. repeat split; intro; discriminate.
+Qed.
+
+Example ex_rejected :
+  let c := mkCfg Fixed 1 10 5 in
+  let s := fold_left (step_st c) [Poll 0%nat; Advance 2] (init c) in
+  r (snd (poll c s 1%nat)) = 3 /\ entered (fst (poll c s 1%nat)) 1%nat = 0.
+Proof. vm_compute. split; reflexivity. Qed.
+
+Example ex_sleeper_woken_and_decided :
+  let c := mkCfg Fixed 1 10 20 in
+  let s := fold_left (step_st c) [Poll 0%nat; Advance 2; Poll 1%nat; Advance 8] (init c) in
+  cs s 1%nat = Sleeping 2 (10, 1) /\ woken s 1%nat = true /\ started (snd (poll c s 1%nat)) = true /\
+  period_start (lm (fst (poll c s 1%nat))) = 10.
+Proof. vm_compute. repeat split; reflexivity. Qed.
+
+Example ex_idle_spread :
+  let c := mkCfg SlidingCounter 3 20 0 in
+  let s := fold_left (step_st c) [Poll 0%nat; Poll 1%nat; Poll 2%nat; Poll 3%nat] (init c) in
+  r (snd (poll c s 4%nat)) = 3 /\
+  fresh_polls c (step_st c s (Advance 40)) [(0, 4%nat); (15, 5%nat); (15, 6%nat)] = [true; true; true].
+Proof. vm_compute. split; reflexivity. Qed.
+
+Example ex_drop_while_sleeping :
+  let c := mkCfg Fixed 1 30 100 in
+  let s := fold_left (step_st c) [Poll 0%nat; Poll 1%nat] (init c) in
+  (exists u, cs s 1%nat = Sleeping 0 u) /\ lm (drop s 1%nat) = lm s /\
+  started (snd (poll c (advance (drop s 1%nat) 30) 2%nat)) = true.
+Proof. vm_compute. split; [eexists; reflexivity|split; reflexivity]. Qed.
+
+(* whoever asks (a new caller, or a waiter whose sleep is over) while the limiter answers Ok(ZERO) starts
+   its inner call in that very poll *)
+Lemma admitted_when_asked c s i start :
+  tries_now s i start -> snd (try_acquire c (now s) (lm s)) = AOk None ->
+  started (snd (poll c s i)) = true /\ entered (fst (poll c s i)) i = entered s i + 1 /\
+  (cs (fst (poll c s i)) i = Running \/ cs (fst (poll c s i)) i = Done).
+Proof.
+  intros Ht Ha. destruct (poll_cases c s i) as [(st0 & _ & _ & Hres)|(Hno & _)]; [|exfalso; eapply Hno; exact Ht].
+  rewrite Ha in Hres. destruct Hres as (H1 & H2 & H3 & _). repeat split; assumption.
+Qed.
+
+(* fixed window, on the admission history: if the newest window holds fewer than limit admissions, or its
+   period is over, whoever asks now is admitted *)
+Lemma fixed_spare_history c evs :
+  wfc c -> wt c = Fixed ->
+  Forall (fun s => forall st0 a rest, wins (lm s) = (st0, a) :: rest ->
+            (Z.of_nat (length a) < limit c \/ st0 + period c <= now s) ->
+            snd (try_acquire c (now s) (lm s)) = AOk None)
+         (states (step_st c) (init c) evs).
+Proof.
+  intros Hwf Hw. eapply Forall_impl; [|apply reach_Inv; exact Hwf].
+  intros s [Hl _ _ _ _] st0 a rest Hwins Hsp. unfold LimInv in Hl. rewrite Hw in Hl.
+  destruct Hl as [(a' & rest' & Hh & Hcnt) Hp _ _]. rewrite Hwins in Hh. inversion Hh; subst.
+  unfold try_acquire. rewrite Hw. apply fixed_spare; [exact Hwf|]. destruct Hsp; [left|right]; lia.
+Qed.
+
+(* sliding reading of "a later window" (all window types): a caller that had to wait is admitted at an instant
+   strictly after its arrival, i.e. by the window (the interval of one period) that ends at a later instant than
+   the one that was full when it arrived: every sleep's deadline lies strictly after the caller's arrival *)
+Definition sleep_after_arrival (s : st) : Prop :=
+  forall i start u, cs s i = Sleeping start u -> 0 < snd u /\ start * snd u < fst u.
+
+Lemma sleep_after_arrival_step c s e :
+  wfc c -> Inv c s -> sleep_after_arrival s -> sleep_after_arrival (step_st c s e).
+Proof.
+  intros Hwf Hinv HS. unfold step_st, step. destruct e as [i|i|d|i o]; cbn [fst].
+  - intros j start u Hcs. destruct (Nat.eq_dec j i) as [->|Hne].
+    + destruct (poll_cases c s i) as [(st0 & Ht & Hlm & Hres)|(Hno & _ & _ & _ & _ & Hc)].
+      * pose proof Hinv as [Hl _ Hsl _ _].
+        pose proof (try_acquire_wait_pos c (now s) (lm s)) as Hpos.
+        pose proof (try_acquire_wait_den c (now s) (lm s)) as Hden.
+        destruct (snd (try_acquire c (now s) (lm s))) as [[w|]|].
+        -- specialize (Hpos w Hwf Hl eq_refl). specialize (Hden w Hwf Hl eq_refl).
+           destruct Hres as (_ & _ & [[H _]|[H _]]); rewrite H in Hcs; [discriminate|].
+           inversion Hcs; subst st0 u. cbn [fst snd].
+           assert (start <= now s).
+           { destruct Ht as [[_ ->]|(u0 & Hc & _)]; [lia|]. destruct (Hsl i start u0 Hc) as (_ & _ & Hle & _). exact Hle. }
+           split; [exact Hden|nia].
+        -- destruct Hres as (_ & [H|H] & _); rewrite H in Hcs; discriminate.
+        -- destruct Hres as (_ & H & _); rewrite H in Hcs; discriminate.
+      * destruct Hc as [Hc|[Hc1 Hc2]]; [rewrite Hc in Hcs; eapply HS; exact Hcs|congruence].
+    + destruct (poll_frame c s i j Hne) as [H1 _]. rewrite H1 in Hcs. eapply HS; exact Hcs.
+  - intros j start u Hcs. unfold drop in Hcs. destruct (Nat.eq_dec j i) as [->|Hne].
+    + destruct (cs s i) eqn:Ei; cbn [cs] in Hcs; rewrite ?upd_same in Hcs; try discriminate; congruence.
+    + destruct (cs s i) eqn:Ei; cbn [cs] in Hcs; rewrite ?upd_other in Hcs by exact Hne; eapply HS; exact Hcs.
+  - intros j start u Hcs. cbn in *. eapply HS; exact Hcs.
+  - intros j start u Hcs. unfold complete in *. destruct (gate s i); [eapply HS; exact Hcs|]. cbn in *. eapply HS; exact Hcs.
+Qed.
+
+Lemma waiter_admitted_later_instant c evs :
+  wfc c ->
+  Forall (fun s => forall i start u, cs s i = Sleeping start u ->
+            started (snd (poll c s i)) = true -> start < now s)
+         (states (step_st c) (init c) evs).
+Proof.
+  intros Hwf.
+  assert (H : Forall (fun s => Inv c s /\ sleep_after_arrival s) (states (step_st c) (init c) evs)).
+  { apply reach_inv.
+    - split; [apply inv_init; exact Hwf|]. intros i start u H. cbn in H. discriminate.
+    - intros s e [H1 H2]. split; [apply step_inv; assumption|apply sleep_after_arrival_step; assumption]. }
+  eapply Forall_impl; [|exact H]. intros s [Hinv HS] i start u Hcs Hst.
+  destruct (HS i start u Hcs) as [Hd Hlt].
+  destruct (poll_cases c s i) as [(st0 & Ht & _)|(_ & _ & Hno & _)]; [|congruence].
+  destruct Ht as [[Hc _]|(u0 & Hc & Hdue)]; [congruence|]. rewrite Hcs in Hc. inversion Hc; subst st0 u0.
+  unfold due in Hdue. apply Z.leb_le in Hdue. nia.
+Qed.
